@@ -41,6 +41,27 @@ def vec_macro_elems(e):
     return None
 
 
+def guard_set(g):
+    """`matches!(x, A | B)` as a match guard -> (name of x, {A, B}); None for no / another kind of guard"""
+    g = peel(g) if isinstance(g, dict) else None
+    if not isinstance(g, dict) or g.get("k") != "Match":
+        return None
+    scr = peel(g["scrut"])
+    while scr.get("k") == "Unary":
+        scr = peel(scr["e"])
+    if not (scr.get("k") == "Path" and scr.get("res") == "Local"):
+        return None
+    yes = set()
+    for a in g["arms"]:
+        b = peel(a["body"])
+        if b.get("k") == "Lit" and b.get("v") is True:
+            for alt in pat_alternatives(a["pat"]):
+                v = pat_variant(alt)
+                if v:
+                    yes.add(last(v))
+    return (scr["name"], yes) if yes else None
+
+
 class Ev:
     def __init__(self, F, fn):
         self.F = F
@@ -235,6 +256,19 @@ class Ev:
         for alt in pat_alternatives(arm["pat"]):
             v = pat_variant(alt)
             label.append(last(v) if v else "_")
+        # `P if matches!(x, A | B) => ..` followed by `P => ..`: record which values of x each arm is for, so that
+        # alternatives taken from `match x` elsewhere in the template can be paired with the right arm
+        g = guard_set(arm.get("guard"))
+        arms = m.get("arms", [])
+        if g is None and any(a is arm for a in arms):
+            idx = [i for i, a in enumerate(arms) if a is arm][0]
+            for prev in arms[:idx]:
+                pg = guard_set(prev.get("guard"))
+                if pg is not None and [last(pat_variant(x)) if pat_variant(x) else "_" for x in pat_alternatives(prev["pat"])] == label:
+                    label = [l + "[%s:!%s]" % (pg[0], ",".join(sorted(pg[1]))) for l in label]
+                    break
+        elif g is not None:
+            label = [l + "[%s:%s]" % (g[0], ",".join(sorted(g[1]))) for l in label]
         for b, path in _pat_paths(arm["pat"]):
             d = ""
             for el in path:
